@@ -328,7 +328,7 @@ func runProxy(sc proxyScen, idx int) (*proxyTrace, error) {
 	}
 	var h *l4proxy.Handler
 	var compiled layer4.Handler
-	if sc.Via == "route" || sc.Via == "route2" || sc.Via == "bigroute" || sc.Via == "throttle" || sc.Via == "pp" || sc.Transport == "tls" {
+	if sc.Via == "route" || sc.Via == "route2" || sc.Via == "bigroute" || sc.Via == "throttle" || sc.Via == "pp" || sc.Via == "ppu" || sc.Transport == "tls" {
 		hj := map[string]any{"handler": "proxy"}
 		for k, v := range hcfg {
 			hj[k] = v
@@ -347,7 +347,7 @@ func runProxy(sc proxyScen, idx int) (*proxyTrace, error) {
 			// the real tls handler terminates the client's TLS; the next route (no matchers) relays the plaintext
 			routes = []map[string]any{{"match": []map[string]any{{"tls": map[string]any{}}}, "handle": []map[string]any{{"handler": "tls"}}}, {"handle": []map[string]any{hj}}}
 		}
-		if sc.Via == "pp" {
+		if sc.Via == "pp" || sc.Via == "ppu" {
 			// the shipped proxy_protocol handler in front: it consumes the header the client sends first and wraps the connection
 			routes = []map[string]any{{"handle": []map[string]any{{"handler": "proxy_protocol"}, hj}}}
 		}
@@ -488,9 +488,21 @@ func runProxy(sc proxyScen, idx int) (*proxyTrace, error) {
 			// (a CloseWrite before the handshake is complete would be refused by crypto/tls)
 			tc.Handshake()
 		}
-		if sc.Via == "pp" {
-			// not part of the client's stream: the proxy_protocol handler strips it
-			cc.Write([]byte("PROXY TCP4 203.0.113.7 198.51.100.9 40000 443\r\n"))
+		if sc.Via == "pp" || sc.Via == "ppu" {
+			// the header is not part of the client's stream: the proxy_protocol handler strips it. The first bytes of the
+			// stream travel in the same segment ("ppu": a v1 header of the UNKNOWN family, which declares no addresses)
+			hdr := "PROXY TCP4 203.0.113.7 198.51.100.9 40000 443\r\n"
+			if sc.Via == "ppu" {
+				hdr = "PROXY UNKNOWN\r\n"
+			}
+			k := 100
+			if k > len(rest) {
+				k = len(rest)
+			}
+			cc.Write(append([]byte(hdr), rest[:k]...))
+			csent.Add(int64(k))
+			rest = rest[k:]
+			time.Sleep(20 * time.Millisecond)
 		}
 		if (sc.Via == "route" || sc.Via == "route2") && len(rest) > 4 {
 			// the first segment ends inside the bytes the route's matcher needs
